@@ -72,6 +72,8 @@ FIELD_TYPES = {
     # C13 handshake: the XML-RPC client of a peer (external class xmlrpc.client.ServerProxy) and its 'supvisors' namespace,
     # whose methods are assumed externals (contracts/assumed_transport.py)
     ('ServerProxy', 'supvisors'): TObj('SupvisorsRPC'),
+    # Supervisor events handed to the SupervisorListener (C16 last-resort guards)
+    ('TickEvent', 'when'): REAL, ('RemoteCommunicationEvent', 'type'): STR, ('RemoteCommunicationEvent', 'data'): STR,
 }
 
 # keys of payload records (Dict[str, Any] with literal keys) -> type
@@ -108,7 +110,8 @@ REC_KEYS = {
 }
 
 EXTERNAL_TYPES = {'Element': TObj('Element'), 'Match': TObj('Match'), 'Pattern': TObj('Pattern'),
-                  'ServerProxy': TObj('ServerProxy'), 'SupvisorsRPC': TObj('SupvisorsRPC')}
+                  'ServerProxy': TObj('ServerProxy'), 'SupvisorsRPC': TObj('SupvisorsRPC'),
+                  'TickEvent': TObj('TickEvent'), 'RemoteCommunicationEvent': TObj('RemoteCommunicationEvent')}
 
 # mutable class-level attributes that the code mutates or aliases: modelled as ONE heap object (C18, Appendix A7)
 CLASS_HEAP_ATTRS = {
